@@ -58,6 +58,8 @@ def c03_strata(tier: str) -> List[Stratum]:
     return [
         Stratum("pairs", tg.C03_PAIR_CASES * scale(tier, 1, 20), lambda r, i: tg.gen_c03_pairs(r, i), systematic=True,
                 note="every op sequence of length <= 2 on one instance and every cross-instance concurrent pair"),
+        Stratum("triples", tg.c03_triple_count() * scale(tier, 1, 10), lambda r, i: tg.gen_c03_triples(r, i), systematic=True,
+                note="every op sequence of length 3 on one instance"),
         Stratum("random", scale(tier, 9000, 900000),
                 lambda r, i: tg.gen_mixed(r, r.choice([1, 2, 2]), 20 if r.random() < 0.2 else 6, ["ok"], True, True,
                                           same_device=r.random() < 0.3)),
